@@ -98,7 +98,25 @@ CASES = [
      ("expect", ["let (s_1, r_2) ← ext_Tx_add t x", "pure (t, r_2)"]), (None, "f"), UPD_EXT),
     ("updext-pure", "fn f(t: &mut Tx, x: u32) -> u32 { t.seal(); t.len() + x }",
      ("expect", ["let s_1 := ext_Tx_seal t", "(ext_Tx_len t)", "pure (t, t_2)"]), (None, "f"), UPD_EXT),
+    ("weak", "pub struct N { pub a: u64 }\npub struct C { pub node: Weak<N> }\nimpl C { fn get_node(&self) -> Arc<N> { self.node.upgrade().unwrap() }\n fn f(&self) -> u64 { self.get_node().a } }",
+     ("expect", ["node : Option N", "Rs.unwrap self.node", "C.get_node self"]), ("C", "f")),
+    ("lock-opaque", "pub struct C { pub tr: Arc<Mutex<Tracker>> }\nimpl C { fn f(&self) -> u32 { self.tr.lock().unwrap().height() } }",
+     ("expect", ["(ext_Tracker_height : Tracker → Nat)", "(ext_Tracker_height self.tr)"]), ("C", "f"), {"Tracker.height": {"params": [], "ret": "u32"}}),
+    ("implinto", "fn f(prefix: impl Into<String>, n: u64) -> String { format!(\"{}/{}\", prefix.into(), n) }", ("expect", ["(«prefix» : String)", "«prefix» ++ \"/\" ++ toString n"])),
+    ("declinto", "fn f(x: Src) -> Dst { let d: Dst = x.into(); d }", ("expect", ["(ext_Src_into : Src → Dst)", "(ext_Src_into x)"]), (None, "f"),
+     {"Src.into": {"params": [], "ret": "Dst"}}),
+    ("declproj", "fn f(k: PubKey) -> Vec<u8> { k.0 }", ("expect", ["(ext_PubKey_0 : PubKey → (List Nat))", "(ext_PubKey_0 k)"]), (None, "f"),
+     {"PubKey.0": {"params": [], "ret": "Vec<u8>"}}),
+    ("traitdefault-mut", "trait T { fn bump(&mut self, x: u32) -> u32; fn set(&mut self, x: u32); fn d(&mut self, x: u32) -> u32 { self.set(x); self.bump(x) + 1 } }",
+     ("expect", ["(ext_set : SelfT → Nat → SelfT)", "(ext_bump : SelfT → Nat → (SelfT × Nat))", "let self := ext_set self x", "let (self, r_1) := ext_bump self x",
+                 "pure (self, t_2)"]), ("T", "d")),
+    ("traitdefault-mut-res", "trait T { fn tr(&mut self, x: u32) -> Result<u32, ()>; fn e(&mut self, x: u32) -> Result<u32, ()> { let y = self.tr(x)?; Ok(y) } }",
+     ("expect", ["(ext_tr : SelfT → Nat → Rs.M (SelfT × Nat))", "let (self, r_1) ← ext_tr self x", "pure (self, y)"]), ("T", "e")),
     # ---- refused (fail closed)
+    ("r-lock-bare-opaque", "pub struct C { pub tr: Tracker, pub other: Mutex<Tracker> }\nimpl C { fn f(&self) -> u32 { self.tr.lock().unwrap().height() } }",
+     ("refuse", "method .lock on ('opaque', 'Tracker')"), ("C", "f"), {"Tracker.height": {"params": [], "ret": "u32"}}),
+    ("r-into-unknown", "fn f(x: Src) -> Dst { let d: Dst = x.into(); d }", ("refuse", ".into() without a known widening target")),
+    ("r-traitdefault-refmut", "trait T { fn set(&mut self, x: u32); fn d(&self, x: u32) { self.set(x); } }", ("refuse", "called from a &self default method"), ("T", "d")),
     ("r-updext-value", "fn f(t: &mut Tx, x: u32) -> bool { let r = t.add(x); true }", ("refuse", "used other than by `?`"), (None, "f"), UPD_EXT),
     ("r-updext-undeclared", "fn f(t: &mut Tx) { t.other(); }", ("refuse", "method .other on ('opaque', 'Tx')"), (None, "f"), UPD_EXT),
     ("r-entryloop-partial", "fn f(a: BTreeMap<K2, u64>, b: BTreeMap<K2, u64>) -> BTreeMap<K2, u64> { let mut m = a; for (k, v) in b { m.entry(k).and_modify(|e| *e += v).or_insert(v); } m }",
